@@ -120,8 +120,8 @@ def families(tier):
     pre = ["1 <= size <= 3", "0 <= kf <= 1", "1 <= cb <= 2", "0 <= fk <= 3", "0 <= fi <= 2", "0 <= c1 <= 3", "b1 >= 0", "0 <= c2 <= 3", "b2 >= 0",
            "0 <= c3 <= 3", "b3 >= 0", "0 <= fin <= 1", "0 <= rx <= 1"]
     if not thorough:
-        pre += ["c3 == 3", "b3 == 0", "b1 <= 1", "b2 <= 2", "fi == 0", "size == 2", "cb == 2", "1 <= c2 <= 2", "c1 <= 2"]
-        parts = parts_product(kf=(0, 1), fk=range(4), c1=range(3))
+        pre += ["c3 == 3", "b3 == 0", "b1 <= 1", "b2 <= 1", "fi == 0", "size == 2", "cb == 2", "1 <= c2 <= 2", "c1 <= 2"]
+        parts = parts_product(kf=(0, 1), fk=range(4), c1=range(3), fin=(0, 1))
     else:
         pre += ["b1 <= 4", "b2 <= 4", "b3 <= 4"]
         parts = parts_product(kf=(0, 1), cb=(1, 2), fk=range(4), c1=range(4), c2=range(4), fin=(0, 1))
